@@ -38,6 +38,26 @@ def mkNode (s : Store) (v lo hi : Nat) : Store × Nat :=
   | none => ({ s with nodes := s.nodes.push ⟨v, lo, hi⟩, uniq := s.uniq.insert ⟨v, lo, hi⟩ s.nodes.size },
              s.nodes.size)
 
+/-- `mkNode` written so that the compiled code updates a uniquely referenced store in place (the
+store is taken apart first, nothing else refers to its tables while they are updated); proved equal
+and substituted by the compiler (`@[csimp]`) — theorems keep speaking about `mkNode` -/
+def mkNodeL (s : Store) (v lo hi : Nat) : Store × Nat :=
+  if lo = hi then (s, lo) else
+  match s.uniq[(⟨v, lo, hi⟩ : Node)]? with
+  | some t => (s, t)
+  | none =>
+    match s with
+    | ⟨nodes, uniq, resC, iteC⟩ =>
+      let k := nodes.size
+      (⟨nodes.push ⟨v, lo, hi⟩, uniq.insert ⟨v, lo, hi⟩ k, resC, iteC⟩, k)
+
+@[csimp] theorem mkNode_eq_mkNodeL : @mkNode = @mkNodeL := by
+  funext s v lo hi
+  unfold mkNode mkNodeL
+  split
+  · rfl
+  · split <;> rfl
+
 def minVar (s : Store) (i t e : Nat) : Nat := min (topVar s i) (min (topVar s t) (topVar s e))
 
 /-- the structural invariant on a bare node table (what a dumped table can be checked for) -/
